@@ -220,6 +220,10 @@ def r4_batch_builder(ctx):
             if arg_is_local(ins, br.args[0], tp[0].dest["l"]):
                 for sb, arms, other in flow.switch_on(ins, br.dest["l"]):
                     cont = arms.get("0")
+        if cont is None:
+            # `match value.to_rpc_params() { Ok(p) => p, Err(e) => return Err(e) }` instead of `?`
+            for sb, arms, other in flow.switch_on(ins, tp[0].dest["l"]):
+                cont = arms.get("0")
         R.check(cont is not None and ins.dominates(cont, ps[0].bb), "C20.R4", "batch-insert:push-only-on-success", "an entry is stored only when its params serialised", "a batch entry is stored although its params failed to serialise", where(ps[0]))
 
 
